@@ -11,7 +11,7 @@ checked to be admissible, step by step, by the correspondence run (`corr sync`).
 
 Only property theorems (and their non-vacuity examples) live here.
 -/
-import AnySyncModel.Sync.Stream
+import AnySyncModel.Sync.LoaderBridge
 
 namespace AnySync.Sync
 
@@ -171,25 +171,59 @@ theorem converge_all_pairs_twice (n : Nat) (s s' : State) (pairs : List (Nat × 
     · exact Or.inr (List.mem_map.2 ⟨(b, a), List.mem_append_left _ hp, rfl⟩)) a b ha hb
   exact ⟨this.1, this.2.2⟩
 
-/-! ## the concrete responder (named gap)
+/-! ## the concrete responder: cut at the common snapshot
 
 The real responder (`ChangesAfterCommonSnapshotLoader`) does not send "my set minus the known
 ancestors of your heads": it additionally leaves out everything stored *before the common snapshot*
-of the two snapshot paths (`cut` below).  The abstract layer has no snapshots; what it can say is
-under which condition such a shortened answer is still admissible. -/
+`cs` of the two snapshot paths.  `Sync/Snapshot.lean` adds snapshot bases and per-replica in-memory
+roots to the abstract model (`SState`, `sstep`): a local add cites the adder's root, a snapshot
+add becomes the root, a delivery may move the receiver's root to any held snapshot on the chain of
+all its heads (validated).  The snapshot invariant Inv-S is proved for every reachable state, and
+the hypothesis of `concrete_response_partial` is derived from it. -/
 
-/-- full statement: for replicas reached through honest participation, the shortened answer is
-admissible *because* the requester holds everything before the common snapshot.  The hypothesis
-`cut ⊆ hv` is a consequence of the snapshot invariant (every ancestor of a change is an ancestor
-or a descendant of its snapshot base, DESIGN §3 Inv-S), which lives in the concrete tree model
-(areas `tree`, C06/C09), not here. -/
+/-- reachable in the annotated model -/
+def SReachable (n : Nat) (ss : SState) : Prop := ∃ ops, srun (sinit n) ops = some ss
+
+/-- **Inv-S always**: in every reachable state of the annotated model (any replica count, any
+schedule): the base of a change is an ancestor-or-equal of it; every ancestor-or-equal of a change
+is comparable with its base; every replica's root is held and lies on the snapshot chain of each of
+its heads; and the message-level invariant `Inv` (closure etc.) holds. -/
+theorem invS_always (n : Nat) (ss : SState) (h : SReachable n ss) :
+    SnapInv ss.base.dag ss.sn ∧ (∀ r, r < ss.base.n → RootOk ss.base.dag ss.sn (ss.base.get r) (ss.root r)) ∧
+    Inv ss.base := by
+  obtain ⟨ops, hr⟩ := h
+  have := sinv_srun _ _ ops (sinv_init n) hr
+  exact ⟨this.snap, this.rootOk, this.inv⟩
+
+/-- the annotated model only adds ghost information: its runs project to runs of the base model -/
+theorem sreachable_reachable (n : Nat) (ss : SState) (h : SReachable n ss) : Inv ss.base :=
+  (invS_always n ss h).2.2
+
+/-- **What is cut is held.**  In a reachable state, for a responder `r` and a requester `q` and a
+snapshot `cs` on both snapshot paths (the chains from their roots): every change `r` holds that is
+not at/after `cs` is held by `q`.  (The time-shifted form — requester's set taken when it asked —
+is `cut_held`, which only needs the requester's set to be closed and to contain its then root.) -/
+theorem cut_is_held (n : Nat) (ss : SState) (h : SReachable n ss) (r q cs : Nat)
+    (hr : r < ss.base.n) (hq : q < ss.base.n)
+    (hcr : OnChain ss.sn (ss.root r) cs) (hcq : OnChain ss.sn (ss.root q) cs) :
+    ∀ x ∈ ss.base.get r, ¬ AncEq ss.base.dag cs x → x ∈ ss.base.get q := by
+  obtain ⟨hs, hroot, hi⟩ := invS_always n ss h
+  have hrq := hroot q hq
+  exact cut_held hi.wf hs (hi.bounded r) (hroot r hr) hcr (hi.closed q) hrq.1
+    (hi.bounded q _ hrq.1) hcq
+
+/-- full statement of the responder's cut: for sets and roots satisfying Inv-S (i.e. for all
+reachable states, `invS_always`), an answer that leaves out, besides the known ancestors of the
+requester's heads, any changes that are not at/after a snapshot `cs` common to both snapshot paths is
+admissible. -/
 def C01_concrete_response_full : Prop :=
-  ∀ (g : Dag) (S hv H cut : List Nat), Closed g S → Bounded g S → Closed g hv → (∀ x ∈ H, x ∈ hv) →
+  ∀ (g : Dag) (sn S hv H cut : List Nat) (rr rq cs : Nat), WF g → SnapInv g sn →
+    Closed g S → Bounded g S → RootOk g sn S rr → OnChain sn rr cs →
+    Closed g hv → rq ∈ hv → rq < g.length → OnChain sn rq cs → (∀ x ∈ H, x ∈ hv) →
+    (∀ x ∈ cut, ¬ AncEq g cs x) →
     validResps g S hv [(heads g S, (respond g S H).filter (fun c => !cut.contains c))] = true
 
-/-- proved part: admissible whenever what was cut is held by the requester.  That the real code's
-cut has this property is *not* proved; it is checked on every response of every correspondence run
-(`step` recomputes `validResps` for the real batches against the requester's set). -/
+/-- proved part with the raw hypothesis: admissible whenever what was cut is held by the requester -/
 theorem concrete_response_partial (g : Dag) (S hv H cut : List Nat) (hS : Closed g S)
     (hb : Bounded g S) (hhv : Closed g hv) (hH : ∀ x ∈ H, x ∈ hv)
     (hcut : ∀ x ∈ cut, x ∈ S → x ∈ hv) :
@@ -215,17 +249,30 @@ theorem concrete_response_partial (g : Dag) (S hv H cut : List Nat) (hS : Closed
     · exact List.mem_append_right _ h
     · exact List.mem_append_left _ h
 
-/-- without the hypothesis the full statement is false in the abstract layer (a responder that cuts
-a change the requester lacks gives an inadmissible answer) — the gap is real, not cosmetic -/
-theorem C01_concrete_response_full_unprovable_here : ¬ C01_concrete_response_full := by
-  intro h
-  have := h [[], [0]] [0, 1] [0] [0] [1]
-    (by intro c hc p hp; simp at hc; rcases hc with rfl | rfl <;> simp [parents] at hp ⊢; exact Or.inl hp)
-    (by intro c hc; simp at hc; rcases hc with rfl | rfl <;> simp)
-    (by intro c hc p hp; simp at hc; subst hc; simp [parents] at hp)
-    (by simp)
-  revert this
-  decide
+/-- the hypothesis is discharged from Inv-S: the full statement holds -/
+theorem concrete_response_full_holds : C01_concrete_response_full := by
+  intro g sn S hv H cut rr rq cs hwf hs hS hb hr hcr hhv hrq hrqb hcq hH hcut
+  apply concrete_response_partial g S hv H cut hS hb hhv hH
+  intro x hxc hxS
+  exact cut_held hwf hs hb hr hcr hhv hrq hrqb hcq x hxS (hcut x hxc)
+
+/-- **The loader of the `tree` area gives an admissible answer.**  `AnySync.Tree.respond` (C09: the
+stored sequence from the common snapshot on, minus the marked ancestors of the requester's heads,
+cut into batches of at most `max` bytes) — read as abstract response batches — is causally closed
+batch by batch, complete for the requester and made of held changes, for sets and roots satisfying
+Inv-S, when `cache` is the responder's stored sequence at/after `cs` (`CacheOf`) in a linear
+extension of the DAG (`LinExt`, C06).  These are the substantive conjuncts of `validResps`
+(non-emptiness and "announced heads are held" are C09 `heads_consistent`). -/
+theorem loader_answer_admissible (g : Dag) (sn S hv H : List Nat) (rr rq cs : Nat)
+    (cache : List AnySync.Tree.SChange) (max : Nat) (hwf : WF g) (hs : SnapInv g sn)
+    (hS : Closed g S) (hb : Bounded g S) (hr : RootOk g sn S rr) (hcr : OnChain sn rr cs)
+    (hhv : Closed g hv) (hrq : rq ∈ hv) (hrqb : rq < g.length) (hcq : OnChain sn rq cs)
+    (hH : ∀ x ∈ H, x ∈ hv) (hc : CacheOf g S cs cache) (hlin : AnySync.Tree.LinExt cache) :
+    cumClosed g hv (toResps (AnySync.Tree.respond cache H max)) = true ∧
+    hasAll (hv ++ batchChanges (toResps (AnySync.Tree.respond cache H max))) S = true ∧
+    (∀ b ∈ toResps (AnySync.Tree.respond cache H max), ∀ x ∈ b.2, x ∈ S) :=
+  loader_valid g S hv H cs cache max hS hhv hH hc hlin
+    (cut_held hwf hs hb hr hcr hhv hrq hrqb hcq)
 
 /-! ## non-vacuity -/
 
@@ -251,6 +298,15 @@ order, where only the first batch's change attaches later -/
 example : validResps [[], [0], [1]] [0, 1, 2] [0] [([1], [1]), ([2], [2])] = true ∧
     applyBatches [[], [0], [1]] [0] [([1], [1]), ([2], [2])] = [0, 1, 2] ∧
     applyBatches [[], [0], [1]] [0] [([2], [2]), ([1], [1])] = [0, 1] := by decide
+
+/-- the annotated model: a plain change, a snapshot, both delivered; the receiver's root follows to
+the snapshot; a root that is not on the chain of the heads (change 1 is no snapshot base of 2) is
+rejected -/
+example : (srun (sinit 2) [.add 0 1 [0] false, .add 0 2 [1] true,
+      .deliver 0 true false [] 0, .deliver 1 true false [] 2]).map
+      (fun ss => (ss.sn, ss.roots, ss.base.sets)) = some ([0, 0, 0], [2, 2], [[0, 1, 2], [0, 1, 2]]) ∧
+    (srun (sinit 2) [.add 0 1 [0] false, .add 0 2 [1] true,
+      .deliver 0 true false [] 0, .deliver 1 true false [] 1]).isNone = true := by decide
 
 /-- a resolution that omits a required request is rejected -/
 example : run (init 2) [.add 0 1 [0], .add 0 2 [1], .drop 0, .deliver 1 false false []] = none := by
